@@ -251,14 +251,21 @@ pub fn spec(check: &str, tier: &str) -> Option<CheckSpec> {
                 level.push_str("; 4 threads x 2 ops on one mutex / one rwlock");
             }
             progs.extend(fam::race_s_lock(tier));
-            level.push_str("; + two cell accesses inserted at every pair of positions into 2-3 thread lock programs (hand-over ordering as a race verdict)");
+            level.push_str("; + two cell accesses inserted at every pair of positions into 2-3 thread lock programs (hand-over ordering as a race verdict); hand-written models: a read guard dropped by a panic the model catches leaves the RwLock free");
             Some(CheckSpec {
                 id: "C07",
                 level: "model_checking",
                 rule: "every program of the LOCK family up to the size level; every iteration's completion history replayed on the lock automaton; non-trivial = >= 2 reference outcomes or a deadlock",
                 assumptions: vec!["lock automaton of DESIGN.md appendix C; no writer preference; recursive read locks excluded"],
                 wall_cap: wall,
-                jobs: jobs("C07", tier, progs, &cfg),
+                jobs: {
+                    let mut js = jobs("C07", tier, progs, &cfg);
+                    for which in 0..crate::statics::CUSTOM_C07 as u64 {
+                        let program = Program { name: format!("CUSTOM-rwlock-caught-panic-{}", which), objs: Objs { atomics: vec![which, 7], ..Default::default() }, threads: vec![vec![]] };
+                        js.push(Job { id: format!("C07-custom-{}", which), check: "C07".into(), tier: tier.into(), program, cfg: cfg.clone(), extra: serde_json::json!({"mode": "custom", "which": which}) });
+                    }
+                    js
+                },
                 self_checks: vec![],
                 completed_level: level,
                 abort_is_violation: true,
